@@ -28,11 +28,11 @@ def execute(ob):
     proc = "NC" if ob["kind"] in NC_KINDS else "CC"
     names = [f"{b}_{flav}" for b in ob["basis"]]
     xs = f"{ob['kind']}_{flav}"
-    line = dict(oid=ob["oid"], kind=ob["kind"], proj=ob["proj"], pt=pt, coeffs=ob["coeffs"], atom=ob["atom"], outcome="OK",
-                keyset_ok=True, nkeys=0, resid_milli=0, kinematics_ok=True, note="", doc_resid_milli=0)
+    line = dict(oid=ob["oid"], kind=ob["kind"], proj=ob["proj"], pt=pt, coeffs=ob["coeffs"], coeffs2=ob["coeffs2"], atom=ob["atom"], outcome="OK",
+                keyset_ok=True, nkeys=0, resid_milli=0, resid2_milli=0, kinematics_ok=True, note="", doc_resid_milli=0)
     th = cards.theory(PTO=ob.get("pto", 1), PTODIS=ob.get("pto", 1), FNS=fns, NfFF=3, mc=1.4, mb=4.5, mt=170.0, MP=M, MW=math.sqrt(mw2), GF=GF, TMC=tmc, Q0=1.0)
     kin = dict(x=x, Q2=q2, y=y)
-    obsd = {xs: [dict(kin)]}
+    obsd = {xs: [dict(kin), dict(kin, y=y / 2)]}      # two inelasticities at one (x, Q2) in one card
     coeffs = [float(common.frac(c)) * ATOMS[ob["atom"]] for c in ob["coeffs"]]
     dcoeffs = [float(common.frac(c)) * ATOMS[ob["atom"]] for c in ob["doc_coeffs"]]
     need = [n for n, c in zip(names, coeffs) if c != 0.0]
@@ -47,7 +47,9 @@ def execute(ob):
         line["note"] = str(ex)[:200]
         return line
     r = out[xs][0]
-    line["kinematics_ok"] = (r.x == x and r.Q2 == q2 and r.y == y)
+    r2 = out[xs][1]
+    coeffs2 = [float(common.frac(c)) * ATOMS[ob["atom"]] for c in ob["coeffs2"]]
+    line["kinematics_ok"] = (r.x == x and r.Q2 == q2 and r.y == y and r2.x == x and r2.Q2 == q2 and r2.y == y / 2)
     keys = set(r.orders)
     for n in need:
         if set(out[n][0].orders) != keys:
@@ -67,6 +69,19 @@ def execute(ob):
         dres = float(np.abs(r.orders[k][0] - dcomb).max())
         wdoc = max(wdoc, common.milli(dres, 1e-12 * scale) if scale > 0 else 0)
     line["resid_milli"], line["doc_resid_milli"] = worst, wdoc
+    w2 = 0
+    if set(r2.orders) != keys:
+        line["keyset_ok"] = False
+        return line
+    for k in keys:
+        terms = [(n, c) for n, c in zip(names, coeffs2) if c != 0.0 and n in out]
+        if any(c != 0.0 and n not in out for n, c in zip(names, coeffs2)):
+            continue      # (a structure function the first inelasticity did not need: not requested in this card)
+        comb = sum(c * out[n][0].orders[k][0] for n, c in terms)
+        scale = max([float(np.abs(r2.orders[k][0]).max())] + [abs(c) * float(np.abs(out[n][0].orders[k][0]).max()) for n, c in terms])
+        res = float(np.abs(r2.orders[k][0] - comb).max())
+        w2 = max(w2, common.milli(res, 1e-12 * scale) if scale > 0 else (0 if res == 0 else 2**30))
+    line["resid2_milli"] = w2
     return line
 
 
@@ -110,6 +125,7 @@ def run(ctx):
     bad = ctx.tlc_validate("Trace_C11", "Trace.cfg", [{k: v for k, v in ln.items() if k not in ("note", "doc_resid_milli")} for ln in lines])
     ctx.selftest("Trace_C11", "Trace.cfg", [{k: v for k, v in ln.items() if k not in ('note', 'doc_resid_milli')} for ln in lines if ln["oid"] not in bad and (ln["outcome"] == "OK")], [
         ("resid", lambda l: dict(l, resid_milli=2000)),
+        ("resid2", lambda l: dict(l, resid2_milli=2000)),
         ("coeffs", lambda l: dict(l, coeffs=l["coeffs"][:-1])),
         ("keys", lambda l: dict(l, keyset_ok=False)),
         ("kinematics", lambda l: dict(l, kinematics_ok=False))])
